@@ -1,2 +1,5 @@
 import ExaModel.AList
+import ExaModel.Bytes
 import ExaModel.Model.Rib
+import ExaModel.Props.C04
+import ExaModel.Props.C11
